@@ -398,18 +398,26 @@ def load_registry(root):
     return reg
 
 
+def ensure_gen(root):
+    """lean/KV/Gen/*.lean are build products (regenerated from /repo by T1); make sure each one
+    exists (copy of the committed GenDefault) so that the project always builds."""
+    lean_dir = os.path.join(root, "lean")
+    gd = os.path.join(lean_dir, "KV", "GenDefault")
+    g = os.path.join(lean_dir, "KV", "Gen")
+    os.makedirs(g, exist_ok=True)
+    if os.path.isdir(gd):
+        for f in os.listdir(gd):
+            if f.endswith(".lean") and not os.path.exists(os.path.join(g, f)):
+                shutil.copyfile(os.path.join(gd, f), os.path.join(g, f))
+
+
 def setup(root):
     """MANIFEST.setup_cmd: build every Lean module and the driver, the translator, and warm the
     Go build cache by compiling every harness once against the current tree."""
     os.makedirs(os.path.join(root, "build"), exist_ok=True)
     registry = load_registry(root)
     lean_dir = os.path.join(root, "lean")
-    for pid, cfg in registry.items():
-        gen = os.path.join(lean_dir, "KV", "Gen", pid + ".lean")
-        default = os.path.join(lean_dir, "KV", "GenDefault", pid + ".lean")
-        if cfg.get("facts") and not os.path.exists(gen) and os.path.exists(default):
-            os.makedirs(os.path.dirname(gen), exist_ok=True)
-            shutil.copyfile(default, gen)
+    ensure_gen(root)
     rc, out = run(["lake", "build"], cwd=lean_dir, timeout=7200)
     log(out[-2000:])
     if rc != 0:
@@ -467,6 +475,7 @@ def main(root, argv):
     known_hits = {}
 
     # (1) obligations
+    ensure_gen(root)
     regen_facts(root, cfg, pid, state)
     broken = lean_obligations(root, cfg, pid, tier, state)
     for b in broken:
